@@ -257,6 +257,9 @@ ck.functions += ['WalRecovery::from_entries', 'WalRecovery::all_operations']
 # ------------------------------------------------------------------ native replay
 for v in ck.violations:
     w = v['witness']
+    if str(w.get('wal', '')).endswith('-double'):
+        v['native'], v['replayed'] = double_crash_replay(w)
+        continue
     if w.get('wal') == 'tensor':
         rep = Replay.call({'op': 'wal_torn', 'wal': 'tensor', 'k': w['k'], 'cut_offset': w['cut_offset'], 'frame_len': w['frame_len']})
         v['native'] = rep
